@@ -358,6 +358,314 @@ pub fn bytes_oracle(bytes: &[u8]) -> Result<(bool, Vec<&'static str>), (String, 
 }
 
 // ---------------------------------------------------------------------------------------------
+// messages sized around the configured packet limit
+
+/// A message whose bulk field (key / record value) is padded, encoded and decoded with a codec whose
+/// `max_packet_size` is the message's own payload length plus `delta`.
+#[derive(Clone, Debug, Serialize, Deserialize)]
+pub struct SizedCase {
+    pub msg: Msg,
+    /// extra bytes appended to the bulk field of the message (if it has one)
+    pub pad: u16,
+    /// limit = payload length + delta (saturating at 0)
+    pub delta: i8,
+}
+
+fn padded(m: &Msg, pad: usize) -> Msg {
+    let mut m = m.clone();
+    let ext = |v: &mut Vec<u8>| v.extend(std::iter::repeat(0xa5u8).take(pad));
+    match &mut m {
+        Msg::ReqFindNode { key } | Msg::ReqGetProviders { key } | Msg::ReqGetValue { key } | Msg::ReqAddProvider { key, .. } => ext(key),
+        Msg::ReqPutValue { record } => ext(&mut record.value),
+        Msg::RespPutValue { value, .. } => ext(value),
+        Msg::RespGetValue { record: Some(r), .. } => ext(&mut r.value),
+        _ => {}
+    }
+    m
+}
+
+fn sized_check(c: &SizedCase) -> Outcome {
+    let m = padded(&c.msg, c.pad as usize);
+    let t0 = Instant::now();
+    let built = build(&m, t0);
+    // payload length as written by the real encoder without any limit, read with the reference varint reader
+    let unlimited = match &built {
+        Built::Req(r) => catch(|| req_to_bytes(r.clone(), usize::MAX)),
+        Built::Resp(r) => catch(|| resp_to_bytes(r.clone(), usize::MAX)),
+    };
+    let unlimited = match unlimited {
+        Ok(Ok(b)) => b,
+        Ok(Err(e)) => return Outcome::fail("C44:encode-error", json!({"err": e.to_string(), "limit": "usize::MAX"})),
+        Err(p) => return Outcome::fail("C44:encode-panic", json!({"panic": p})),
+    };
+    let Some((plen, used)) = vcore::refcodec::read_uvarint(&unlimited) else { return Outcome::fail("C44:length-prefix-unreadable", json!({"head": unlimited.iter().take(12).collect::<Vec<_>>()})) };
+    ensure!(plen as usize == unlimited.len() - used, "C44:length-prefix-differs-from-payload-length", json!({"prefix": plen, "payload": unlimited.len() - used}));
+    let payload = plen as usize;
+    let limit = (payload as i64 + c.delta as i64).max(0) as usize;
+    let fits = payload <= limit;
+    let detail = |what: &str| json!({"what": what, "kind": kind(&m), "payload_len": payload, "prefix_len": used, "max_packet_size": limit});
+    // encoder with the limit
+    let enc = match &built {
+        Built::Req(r) => catch(|| req_to_bytes(r.clone(), limit)),
+        Built::Resp(r) => catch(|| resp_to_bytes(r.clone(), limit)),
+    };
+    let enc = match enc {
+        Ok(x) => x,
+        Err(p) => return Outcome::fail("C44:encode-panic", json!({"panic": p, "ctx": detail("")})),
+    };
+    let mut labels = vec![kind(&m)];
+    labels.push(match used {
+        1 => "prefix:1-byte",
+        2 => "prefix:2-bytes",
+        _ => "prefix:3+-bytes",
+    });
+    labels.push(match c.delta {
+        0 => "payload==limit",
+        1 => "payload==limit-1",
+        2 => "payload==limit-2",
+        3 => "payload==limit-3",
+        -1 => "payload==limit+1",
+        d if d > 3 => "payload<limit-3",
+        _ => "payload>limit+1",
+    });
+    if fits {
+        // the decoder with this limit accepts the payload, so the message must make the round trip
+        let bytes = match enc {
+            Ok(b) => b,
+            Err(e) => return Outcome::fail("C44:encoder-refuses-message-the-decoder-accepts", json!({"err": e.to_string(), "ctx": detail("payload length <= max_packet_size")})),
+        };
+        macro_rules! trip {
+            ($from:ident, $strip:ident, $orig:expr) => {{
+                let back = match catch(|| $from(&bytes, limit)) {
+                    Ok(Ok((Some(b), 0))) => b,
+                    Ok(other) => return Outcome::fail("C44:decode-of-encoded-failed", json!({"got": format!("{other:?}").chars().take(300).collect::<String>(), "ctx": detail("payload length <= max_packet_size")})),
+                    Err(p) => return Outcome::fail("C44:decode-panic", json!({"panic": p, "ctx": detail("")})),
+                };
+                let elapsed = t0.elapsed();
+                let (mut a, mut b) = ($orig.clone(), back);
+                let (ea, eb) = ($strip(&mut a), $strip(&mut b));
+                ensure!(a == b, "C44:sized-roundtrip-differs", detail("decoded message differs"));
+                if let (Some(ea), Some(eb)) = (ea, eb) {
+                    if let Err(sig) = expiry_ok(ea, eb, elapsed) {
+                        return Outcome::fail(sig, detail("expiry"));
+                    }
+                }
+            }};
+        }
+        match &built {
+            Built::Req(orig) => trip!(req_from_bytes, strip_req, orig),
+            Built::Resp(orig) => trip!(resp_from_bytes, strip_resp, orig),
+        }
+        labels.push("within-limit:roundtrip");
+    } else {
+        // over the limit: nothing round-trips by design; the sides must fail cleanly
+        labels.push(if enc.is_ok() { "over-limit:encoder-emits" } else { "over-limit:encoder-refuses" });
+        let dec_err = match &built {
+            Built::Req(_) => catch(|| req_from_bytes(&unlimited, limit).map(|_| ())),
+            Built::Resp(_) => catch(|| resp_from_bytes(&unlimited, limit).map(|_| ())),
+        };
+        match dec_err {
+            Err(p) => return Outcome::fail("C44:decode-panic", json!({"panic": p, "ctx": detail("over the limit")})),
+            Ok(Ok(())) => labels.push("over-limit:decoder-accepts"),
+            Ok(Err(_)) => labels.push("over-limit:decoder-rejects"),
+        }
+    }
+    // non-trivial: the payload is within the length of its own prefix of the limit (either side)
+    Outcome::pass_l((c.delta as i64).unsigned_abs() as usize <= used, labels)
+}
+
+// ---------------------------------------------------------------------------------------------
+// structurally valid but abnormal protobuf messages (written with the reference protobuf writer)
+
+#[derive(Clone, Debug, Serialize, Deserialize)]
+pub enum PbId {
+    Missing,
+    /// present with length 0
+    Empty,
+    Valid(u16),
+    Garbage(Vec<u8>),
+}
+
+#[derive(Clone, Debug, Serialize, Deserialize)]
+pub enum PbAddr {
+    /// a parsable multiaddr without /p2p
+    Plain(Vec<Comp>),
+    /// a parsable multiaddr ending in /p2p/<pool peer>, matching the peer's id or not
+    WithP2p(Vec<Comp>, u16),
+    Empty,
+    Garbage(Vec<u8>),
+}
+
+#[derive(Clone, Debug, Serialize, Deserialize)]
+pub struct PbPeer {
+    pub id: PbId,
+    pub addrs: Vec<PbAddr>,
+    /// None = field absent; values above 3 are outside the enum
+    pub conn: Option<u8>,
+}
+
+#[derive(Clone, Debug, Serialize, Deserialize)]
+pub struct PbRecord {
+    pub key: Option<Vec<u8>>,
+    pub value: Option<Vec<u8>>,
+    pub time_received: Option<Vec<u8>>,
+    pub publisher: PbId,
+    pub ttl: Option<u32>,
+}
+
+#[derive(Clone, Debug, Serialize, Deserialize)]
+pub struct PbMsg {
+    /// None = field absent (decodes as 0 = PUT_VALUE); 6.. = outside the enum
+    pub ty: Option<u8>,
+    pub cluster: Option<i8>,
+    pub key: Option<Vec<u8>>,
+    /// a record field may occur more than once (protobuf merges)
+    pub records: Vec<PbRecord>,
+    pub closer: Vec<PbPeer>,
+    pub providers: Vec<PbPeer>,
+    /// an unknown length-delimited field
+    pub unknown: Option<(u8, Vec<u8>)>,
+    /// rotation of the top-level field order
+    pub rot: u8,
+}
+
+fn pb_id(field: u32, id: &PbId) -> Vec<u8> {
+    use vcore::refcodec::pb_bytes;
+    match id {
+        PbId::Missing => vec![],
+        PbId::Empty => pb_bytes(field, &[]),
+        PbId::Valid(i) => pb_bytes(field, &pid(*i).to_bytes()),
+        PbId::Garbage(g) => pb_bytes(field, g),
+    }
+}
+
+fn pb_peer(p: &PbPeer) -> Vec<u8> {
+    use vcore::refcodec::{pb_bytes, pb_varint};
+    let mut v = pb_id(1, &p.id);
+    for a in &p.addrs {
+        let raw = match a {
+            PbAddr::Plain(c) => build_addr(c).to_vec(),
+            PbAddr::WithP2p(c, i) => {
+                let mut a = build_addr(c);
+                a.push(Protocol::P2p(pid(*i)));
+                a.to_vec()
+            }
+            PbAddr::Empty => vec![],
+            PbAddr::Garbage(g) => g.clone(),
+        };
+        v.extend(pb_bytes(2, &raw));
+    }
+    if let Some(c) = p.conn {
+        v.extend(pb_varint(3, c as u64));
+    }
+    v
+}
+
+fn pb_record(r: &PbRecord) -> Vec<u8> {
+    use vcore::refcodec::{pb_bytes, pb_varint};
+    let mut v = vec![];
+    if let Some(k) = &r.key {
+        v.extend(pb_bytes(1, k));
+    }
+    if let Some(x) = &r.value {
+        v.extend(pb_bytes(2, x));
+    }
+    if let Some(t) = &r.time_received {
+        v.extend(pb_bytes(5, t));
+    }
+    v.extend(pb_id(666, &r.publisher));
+    if let Some(t) = r.ttl {
+        v.extend(pb_varint(777, t as u64));
+    }
+    v
+}
+
+pub fn pb_message(m: &PbMsg) -> Vec<u8> {
+    use vcore::refcodec::{pb_bytes, pb_varint};
+    let mut fields: Vec<Vec<u8>> = vec![];
+    if let Some(t) = m.ty {
+        fields.push(pb_varint(1, t as u64));
+    }
+    if let Some(k) = &m.key {
+        fields.push(pb_bytes(2, k));
+    }
+    for r in &m.records {
+        fields.push(pb_bytes(3, &pb_record(r)));
+    }
+    for p in &m.closer {
+        fields.push(pb_bytes(8, &pb_peer(p)));
+    }
+    for p in &m.providers {
+        fields.push(pb_bytes(9, &pb_peer(p)));
+    }
+    if let Some(c) = m.cluster {
+        // int32: negative values are sign-extended to 64 bits on the wire
+        fields.push(pb_varint(10, c as i64 as u64));
+    }
+    if let Some((f, b)) = &m.unknown {
+        fields.push(pb_bytes(11 + (*f as u32 % 40), b));
+    }
+    if !fields.is_empty() {
+        let r = m.rot as usize % fields.len();
+        fields.rotate_left(r);
+    }
+    fields.concat()
+}
+
+fn peer_ok(p: &PbPeer) -> bool {
+    matches!(p.id, PbId::Valid(_)) && p.conn.is_none_or(|c| c < 4)
+}
+
+fn abnormal_check(m: &PbMsg) -> Outcome {
+    let payload = pb_message(m);
+    let bytes = frame(&payload);
+    let mut labels: Vec<&'static str> = vec![];
+    let ty = m.ty.unwrap_or(0);
+    labels.push(match (m.ty, ty) {
+        (None, _) => "type:absent(=put-value)",
+        (_, 0) => "type:put-value",
+        (_, 1) => "type:get-value",
+        (_, 2) => "type:add-provider",
+        (_, 3) => "type:get-providers",
+        (_, 4) => "type:find-node",
+        (_, 5) => "type:ping",
+        _ => "type:out-of-range",
+    });
+    let mut abnormal = false;
+    let mut mark = |f: bool, l: &'static str, labels: &mut Vec<&'static str>| {
+        if f {
+            abnormal = true;
+            labels.push(l);
+        }
+    };
+    mark(ty == 2 && m.providers.is_empty(), "add-provider:no-provider-peers", &mut labels);
+    mark(ty == 2 && !m.providers.is_empty() && !m.providers.iter().any(peer_ok), "add-provider:only-unparsable-provider-peers", &mut labels);
+    mark(ty == 2 && m.providers.len() > 1, "add-provider:several-provider-peers", &mut labels);
+    mark(ty == 0 && m.records.is_empty(), "put-value:no-record", &mut labels);
+    mark(m.records.len() > 1, "record-field-repeated", &mut labels);
+    mark(m.records.iter().any(|r| r.key.is_none() && r.value.is_none()), "record:key-and-value-absent", &mut labels);
+    mark(m.records.iter().any(|r| matches!(r.publisher, PbId::Garbage(_))), "record:garbage-publisher", &mut labels);
+    mark(matches!(ty, 1 | 3 | 4) && m.closer.is_empty(), "lookup:no-closer-peers", &mut labels);
+    mark(m.key.is_none() && matches!(ty, 1..=4), "key-absent", &mut labels);
+    let all_peers = || m.closer.iter().chain(m.providers.iter());
+    mark(all_peers().any(|p| matches!(p.id, PbId::Missing | PbId::Empty)), "peer:id-absent-or-empty", &mut labels);
+    mark(all_peers().any(|p| matches!(p.id, PbId::Garbage(_))), "peer:garbage-id", &mut labels);
+    mark(all_peers().any(|p| p.conn.is_some_and(|c| c > 3)), "peer:connection-out-of-range", &mut labels);
+    mark(all_peers().any(|p| p.addrs.iter().any(|a| matches!(a, PbAddr::Garbage(_) | PbAddr::Empty))), "peer:unparsable-address", &mut labels);
+    mark(all_peers().any(|p| p.addrs.iter().any(|a| matches!(a, PbAddr::WithP2p(..)))), "peer:address-with-own-p2p", &mut labels);
+    mark(m.unknown.is_some(), "unknown-field", &mut labels);
+    // the reference writer's output is a well-formed protobuf by construction (checked with the reference parser)
+    ensure!(vcore::refcodec::pb_parse(&payload).is_some(), "C44:harness-wrote-malformed-protobuf", json!({"payload": payload}));
+    match bytes_oracle(&bytes) {
+        Err((sig, detail)) => Outcome::fail(&sig, json!({"structure": format!("{m:?}"), "detail": detail})),
+        Ok((_, l)) => {
+            labels.extend(l);
+            Outcome::pass_l(abnormal && ty < 6, labels)
+        }
+    }
+}
+
+// ---------------------------------------------------------------------------------------------
 // strategies
 
 fn key() -> impl Strategy<Value = Vec<u8>> {
@@ -400,6 +708,45 @@ fn raw() -> impl Strategy<Value = Raw> {
     ]
 }
 
+fn sized_case() -> impl Strategy<Value = SizedCase> {
+    // pad: none (1-byte prefix), up to the 1->2 byte prefix boundary (127/128), and around the
+    // 2->3 byte boundary / the 16 KiB default limit (16383/16384)
+    let pad = prop_oneof![3 => Just(0u16), 3 => 0u16..300, 2 => 16_200u16..16_500, 1 => 0u16..17_000];
+    let delta = prop_oneof![12 => -3i8..=3, 1 => -100i8..=100];
+    (msg(), pad, delta).prop_map(|(msg, pad, delta)| SizedCase { msg, pad, delta })
+}
+
+fn pb_id_strategy() -> impl Strategy<Value = PbId> {
+    prop_oneof![2 => Just(PbId::Missing), 1 => Just(PbId::Empty), 6 => prop_oneof![3 => 0u16..8, 1 => 8u16..2000].prop_map(PbId::Valid), 2 => proptest::collection::vec(any::<u8>(), 1..40).prop_map(PbId::Garbage)]
+}
+
+fn pb_peer_strategy() -> impl Strategy<Value = PbPeer> {
+    let addr = prop_oneof![
+        4 => dial_addr().prop_map(PbAddr::Plain),
+        2 => (dial_addr(), 0u16..8).prop_map(|(c, i)| PbAddr::WithP2p(c, i)),
+        1 => Just(PbAddr::Empty),
+        2 => proptest::collection::vec(any::<u8>(), 1..12).prop_map(PbAddr::Garbage),
+    ];
+    (pb_id_strategy(), proptest::collection::vec(addr, 0..3), proptest::option::weighted(0.7, prop_oneof![6 => 0u8..4, 1 => 4u8..=255])).prop_map(|(id, addrs, conn)| PbPeer { id, addrs, conn })
+}
+
+fn pb_msg_strategy() -> impl Strategy<Value = PbMsg> {
+    let small = || proptest::collection::vec(any::<u8>(), 0..12);
+    let rec = (proptest::option::weighted(0.7, small()), proptest::option::weighted(0.7, small()), proptest::option::weighted(0.2, small()), pb_id_strategy(), proptest::option::weighted(0.6, prop_oneof![Just(0u32), Just(1u32), any::<u32>()]))
+        .prop_map(|(key, value, time_received, publisher, ttl)| PbRecord { key, value, time_received, publisher, ttl });
+    (
+        proptest::option::weighted(0.9, prop_oneof![12 => 0u8..6, 1 => 6u8..=255]),
+        proptest::option::weighted(0.5, any::<i8>()),
+        proptest::option::weighted(0.6, small()),
+        proptest::collection::vec(rec, 0..3),
+        proptest::collection::vec(pb_peer_strategy(), 0..3),
+        proptest::collection::vec(pb_peer_strategy(), 0..3),
+        proptest::option::weighted(0.15, (any::<u8>(), small())),
+        prop_oneof![3 => Just(0u8), 1 => any::<u8>()],
+    )
+        .prop_map(|(ty, cluster, key, records, closer, providers, unknown, rot)| PbMsg { ty, cluster, key, records, closer, providers, unknown, rot })
+}
+
 pub fn run(ctx: &mut Ctx) {
     ctx.assume("messages go through the real Codec<A,B> (uvarint prefix + prost + req/resp conversion) via the cfg(libp2p_verif) shims verif::{req,resp}_{to,from}_bytes; max packet size 16 KiB, generated messages stay below it");
     ctx.assume("peer addresses are generated in the decoder's normal form (ending in /p2p/<peer id>); record lifetimes are whole seconds >= 1 and are compared within 1 s plus the measured real time between construction and decoding");
@@ -416,6 +763,21 @@ pub fn run(ctx: &mut Ctx) {
         ctx.n(60_000, 2_500_000),
         &|| raw().boxed(),
         &raw_check,
+    );
+    ctx.assume("a message is within a codec's limit when its protobuf payload length (without the unsigned-varint prefix, as documented for prost_codec::Codec::new and enforced by the decoder) is <= max_packet_size; only such messages are required to round-trip, messages over the limit must merely fail without a panic on either side");
+    ctx.check(
+        "size-limit",
+        "every message kind, its bulk field (key / record value) padded by 0, 0..300 or 16200..16500 bytes so that the length prefix takes 1, 2 or 3 bytes; encoder and decoder are built with max_packet_size = payload length + delta, delta in -3..=3 (rarely -100..100): for delta >= 0 the encoder must emit the message and the decoder (same limit) must return it unchanged; for delta < 0 both sides must return without panicking; non-trivial = |delta| <= length of the prefix",
+        ctx.n(24_000, 600_000),
+        &|| sized_case().boxed(),
+        &sized_check,
+    );
+    ctx.check(
+        "abnormal-protobuf",
+        "well-formed protobuf Messages written field by field with the reference writer from a structural description: type absent / 0..5 / out of range, key / clusterLevelRaw optional, 0..2 record fields (every sub-field optional, publisher absent/empty/valid/garbage, ttl 0/1/any), 0..2 closerPeers and 0..2 providerPeers (id absent/empty/valid/garbage, 0..2 addresses plain / ending in a /p2p / empty / garbage, connection absent / valid / out of range), an unknown field, rotated field order; framed with a correct prefix and fed to both decoders: no panic, and whatever decodes must re-encode to the same message; non-trivial = a known type and at least one abnormal feature (labels count them)",
+        ctx.n(40_000, 1_200_000),
+        &|| pb_msg_strategy().boxed(),
+        &abnormal_check,
     );
     ctx.fuzz(&crate::fuzzapi::KAD_WIRE, 30_000, 600_000, crate::fuzzapi::KAD_WIRE_RUNS_PER_JOB, crate::fuzzapi::FUZZ_JOBS);
 }
